@@ -182,6 +182,7 @@ const mtCancel, mtCoopClose, mtSwapOutRequest, mtSwapInAgreement, mtOpeningTx = 
 func TestC18NoDeadlockRpcWatcher(t *testing.T) {
 	col := stats.Get("C18.rpc")
 	rapid.Check(t, func(t *rapid.T) {
+		sim.CaseStart(t)
 		w := sim.NewWorld()
 		defer w.Close()
 		a := w.AddNode("alice")
